@@ -141,7 +141,7 @@ impl<K> AccessTime for DeqNode<KeyHashDate<K>> {
 
     #[inline]
     fn last_modified(&self) -> Option<Instant> {
-        None
+        self.element.entry_info.last_modified()
     }
 
     #[inline]
